@@ -432,3 +432,10 @@ mod tests {
         assert_eq!(actual_decoded, *value);
     }
 }
+
+// Verification harnesses (compiled only by `cargo kani`; inert otherwise).
+#[cfg(kani)]
+#[allow(dead_code, unused_imports)]
+mod verif {
+    include!(concat!(env!("BTDHT_VERIF"), "/harness/compact.rs"));
+}
